@@ -118,10 +118,10 @@ CategClauses ==
       \* rate of a leader: default group = pooled rare values
       nOf(ldr) == IF ldr = 0 - 1 THEN LET RECURSIVE sm(_)
                                         sm(T) == IF T = {} THEN 0 ELSE LET j == CHOOSE x \in T : TRUE IN C.n[j] + sm(T \ {j})
-                                    IN sm(dflt) ELSE C.n[ldr]
+                                    IN sm(dflt) ELSE IF ldr \in ids THEN C.n[ldr] ELSE 0      \* (a leader never observed holds no row)
       sOf(ldr) == IF ldr = 0 - 1 THEN LET RECURSIVE sm(_)
                                         sm(T) == IF T = {} THEN 0 ELSE LET j == CHOOSE x \in T : TRUE IN C.s[j] + sm(T \ {j})
-                                    IN sm(dflt) ELSE C.s[ldr]
+                                    IN sm(dflt) ELSE IF ldr \in ids THEN C.s[ldr] ELSE 0
       ord == SelectSeq(C.order, LAMBDA x : x # 0)
   IN  Flag(dflt = rare, "C09_default_group_iff_rare")
  \cup Flag((C.nanrows > 0) = (0 \in BRng(C.order)) /\ (0 \in BRng(C.order) => C.order[Len(C.order)] = 0),
